@@ -427,6 +427,13 @@ Section L.
       assert (E : potf (ind [] []) = list_sum (map w V)) by (unfold potf; f_equal).
       rewrite E. simpl. lia.
     Qed.
+
+    Theorem load_closure_terminates_ge fuel : fuel_bound <= fuel -> load_closure g fuel T <> OutOfFuel.
+    Proof.
+      intros Hf. apply load_terminates; [apply init_linv|]. unfold phi, fuel_bound in *. rewrite cost_cons. change (cost []) with 0.
+      assert (E : potf (ind [] []) = list_sum (map w V)) by (unfold potf; f_equal).
+      rewrite E. simpl. lia.
+    Qed.
   End Term.
 End L.
 
